@@ -27,6 +27,8 @@
       address, with UTF-8 validity (RFC 3629) as a predicate on bytes; the two ways to bound a label.
   §8  the handler variant (proxy_handler.go `writeResponse` under net/http's server): what the client reads
       when the body copy fails, as a function of what the handler does with the error (`CopyPolicy`).
+  §9  the accept loop (`Proxy.Serve`): which `Accept` errors are retried (with which delay) and which end it.
+  §10 the HTTP log mode: the logger as a wrapper around the relayed body (`wrapBody`), transparency.
 -/
 import FwdVerif.Model.Resp
 import FwdVerif.Model.RespSpec
@@ -1070,6 +1072,226 @@ def bodyParsesComplete (fr : Framing) (wire : Bytes) : Bool :=
   | .cl n => n ≤ wire.length
   | .chunked => (Resp.decodeChunked wire).isSome
   | .eof => true
+
+/-! ## §9 the accept loop (`Proxy.Serve`; net/http's `Server.Serve` in the handler variant)
+
+  `Serve` calls `l.Accept()` for ever.  On an error it asks `errors.As(err, &net.Error) && nerr.Temporary()`:
+  if so it sleeps (5 ms, doubled per consecutive error, capped at 1 s; an accepted connection resets the delay)
+  and calls `Accept` again; otherwise it returns — and its deferred `l.Close()` closes the listening socket,
+  while the process lives on (`HTTPProxy.run` waits for its context): every later client is refused. -/
+
+/-- what the loop can ask of an error `Accept` returned -/
+structure AcceptShape where
+  netError : Bool    -- `errors.As(err, &net.Error)`
+  temporary : Bool   -- `nerr.Temporary()`
+  timeout : Bool     -- `nerr.Timeout()`
+  closed : Bool      -- `errors.Is(err, net.ErrClosed)`
+  deriving DecidableEq, Repr
+
+/-- the errors `Accept` returns, as the net package builds them (`*net.OpError{Op: "accept"}` around …) -/
+inductive AcceptErr where
+  | emfile         -- `os.SyscallError{"accept4", EMFILE}`: the process is out of descriptors
+  | enfile         -- … ENFILE: the system is
+  | eintr          -- … EINTR
+  | econnaborted   -- the bare errno (`OpError.Temporary`: "ECONNRESET and ECONNABORTED … from calling accept")
+  | econnreset
+  | deadline       -- `os.ErrDeadlineExceeded`: a deadline set on the listener passed
+  | etimedout      -- `os.SyscallError{…, ETIMEDOUT}`
+  | closed         -- `net.ErrClosed`: the listener was closed
+  | einval         -- `os.SyscallError{…, EINVAL}`: an errno that is not temporary
+  | plain          -- an error that is no `net.Error` at all
+  deriving DecidableEq, Repr
+
+/-- THE TABLE: `syscall.Errno.Temporary` is `EINTR || EMFILE || ENFILE || Timeout()`, `Timeout` is
+    `EAGAIN || EWOULDBLOCK || ETIMEDOUT`; `OpError.Temporary` adds ECONNRESET / ECONNABORTED from accept -/
+def AcceptErr.shape : AcceptErr → AcceptShape
+  | .emfile | .enfile | .eintr => { netError := true, temporary := true, timeout := false, closed := false }
+  | .econnaborted | .econnreset => { netError := true, temporary := true, timeout := false, closed := false }
+  | .deadline | .etimedout => { netError := true, temporary := true, timeout := true, closed := false }
+  | .closed => { netError := true, temporary := false, timeout := false, closed := true }
+  | .einval => { netError := true, temporary := false, timeout := false, closed := false }
+  | .plain => { netError := false, temporary := false, timeout := false, closed := false }
+
+/-- the PROPERTY's notion (not the code's): the condition passes by itself — descriptors are released, the
+    next connection is not aborted, the call is not interrupted again — so the proxy has to go on accepting -/
+def AcceptErr.passes : AcceptErr → Bool
+  | .closed | .einval | .plain => false
+  | _ => true
+
+inductive LoopAction where
+  | retry (delayMs : Nat)   -- sleep, call `Accept` again
+  | ret                     -- `Serve` returns; the deferred `l.Close()` closes the listener
+  deriving DecidableEq, Repr
+
+/-- which errors the loop retries -/
+abbrev RetryPred := AcceptShape → Bool
+
+/-- the code as it is -/
+def retryTemporary : RetryPred := fun s => s.netError && s.temporary
+
+/-- NOT the code: "Temporary is deprecated, the errors worth retrying are time-outs" -/
+def retryTimeoutOnly : RetryPred := fun s => s.netError && s.timeout
+
+/-- the delay before the next `Accept` call, from the previous one (0 = none yet / a connection since) -/
+def nextDelay (d : Nat) : Nat := if d == 0 then 5 else if d * 2 > 1000 then 1000 else d * 2
+
+def acceptActionWith (p : RetryPred) (delay : Nat) (e : AcceptErr) : LoopAction :=
+  if p e.shape then .retry (nextDelay delay) else .ret
+
+/-- what the unchanged `Serve` does with an error of a fresh loop -/
+def acceptStep (e : AcceptErr) : LoopAction := acceptActionWith retryTemporary 0 e
+
+structure AcceptState where
+  delay : Nat := 0
+  returned : Bool := false   -- `Serve` has returned: the listener is closed
+  served : Nat := 0          -- connections handed to `handleLoop`
+  deriving DecidableEq, Repr
+
+/-- what happens at the listener: a client connects, or `Accept` fails -/
+inductive AcceptEv where
+  | conn
+  | err (e : AcceptErr)
+  deriving DecidableEq, Repr
+
+inductive AcceptOut where
+  | served                    -- the connection is accepted and served
+  | refused                   -- nobody listens any more
+  | action (a : LoopAction)
+  | unseen                    -- no loop is left to see the error
+  deriving DecidableEq, Repr
+
+def acceptStepWith (p : RetryPred) (st : AcceptState) (ev : AcceptEv) : AcceptState × AcceptOut :=
+  if st.returned then (st, match ev with | .conn => .refused | .err _ => .unseen)
+  else
+    match ev with
+    | .conn => ({ st with delay := 0, served := st.served + 1 }, .served)
+    | .err e =>
+      match acceptActionWith p st.delay e with
+      | .retry d => ({ st with delay := d }, .action (.retry d))
+      | .ret => ({ st with returned := true }, .action .ret)
+
+def acceptRunWith (p : RetryPred) : AcceptState → List AcceptEv → AcceptState × List AcceptOut
+  | st, [] => (st, [])
+  | st, ev :: evs =>
+    let (st1, o) := acceptStepWith p st ev
+    let (st2, os) := acceptRunWith p st1 evs
+    (st2, o :: os)
+
+/-- the code as it is -/
+def acceptRun (st : AcceptState) (evs : List AcceptEv) : AcceptState × List AcceptOut :=
+  acceptRunWith retryTemporary st evs
+
+/-! ## §10 the HTTP log mode (`httplog`, `--log-http`): a wrapper around the relayed body
+
+  The logger is a response modifier (`middlewareStack`: `fg.AddResponseModifier(lf)`).  The modes `none`,
+  `short-url`, `url`, `headers`, `errors` never touch a body.  Mode `body` (`structuredLogBuilder.WithBody`)
+  reads the response body to its end with `io.ReadAll`; when that succeeds it puts
+  `io.NopCloser(bytes.NewReader(data))` in its place, when it fails it records `body_error` and LEAVES THE
+  FAILED BODY IN PLACE — a body that was read to its error returns that error again (`bodyEOFSignal.rerr`,
+  `chunkedReader.err`), so `writeResponse` still sees it.  (The request body is read by the same modifier,
+  i.e. after the round trip: it has no part in what is forwarded.) -/
+
+/-- how a body stream ends: regularly (`io.EOF`), or with a read error (the peer closed or reset inside it) -/
+inductive BodyEnd where
+  | clean | err
+  deriving DecidableEq, Repr
+
+/-- a message body as a reader yields it: the non-empty reads, and the terminal condition -/
+structure BodyStream where
+  pieces : List Bytes
+  ending : BodyEnd
+  deriving DecidableEq, Repr
+
+def BodyStream.bytes (b : BodyStream) : Bytes := b.pieces.flatten
+
+inductive LogMode where
+  | none | shortURL | url | headers | body | errors
+  deriving DecidableEq, Repr
+
+/-- one read yields everything a `bytes.Reader` holds -/
+def replayPieces (data : Bytes) : List Bytes := match data with | [] => [] | d => [d]
+
+/-- what a body-logging step leaves in place of the body it read -/
+abbrev Snapshot := BodyStream → BodyStream
+
+/-- the code as it is: the data is replayed only when the read succeeded; a failed body stays, consumed,
+    and yields its error again -/
+def snapshotKeepErr : Snapshot := fun b =>
+  match b.ending with
+  | .clean => { pieces := replayPieces b.bytes, ending := .clean }
+  | .err => { pieces := [], ending := .err }
+
+/-- NOT the code: "keep the data read before an error so that a message that broke off still shows up in
+    the log" — always `io.NopCloser(bytes.NewReader(data))`: the error is logged and gone -/
+def snapshotDropErr : Snapshot := fun b => { pieces := replayPieces b.bytes, ending := .clean }
+
+def wrapBodyWith (s : Snapshot) : LogMode → BodyStream → BodyStream
+  | .body, b => s b
+  | _, b => b
+
+/-- the body `writeResponse` gets under log mode `m` -/
+def wrapBody (m : LogMode) (b : BodyStream) : BodyStream := wrapBodyWith snapshotKeepErr m b
+
+/-- a wrapper is transparent when it never changes how a body ends, never invents bytes, and leaves a
+    body that ends regularly byte for byte as it was -/
+def Transparent (w : BodyStream → BodyStream) : Prop :=
+  ∀ b, (w b).ending = b.ending ∧ (∃ t, (w b).bytes ++ t = b.bytes) ∧ (b.ending = .clean → (w b).bytes = b.bytes)
+
+/-- the writers (`writeResponse` towards the client, `http.Transport` towards the origin) finish a message
+    only when its body ended regularly -/
+def relayEnd : BodyEnd → HandlerEnd
+  | .clean => .returns
+  | .err => .abort
+
+/-- the body bytes on the wire under framing `fr` -/
+def relayBodyWire (fr : Framing) (b : BodyStream) : Bytes := handlerBodyWire fr b.pieces (relayEnd b.ending)
+
+/-- the request body the origin receives: the logger is not in its way, whatever the mode -/
+def forwardedUpload (_m : LogMode) (fr : Framing) (b : BodyStream) : Bytes := relayBodyWire fr b
+
+/-! ### the same on exchanges -/
+
+/-- the `k` payload bytes that reached the proxy (their values are immaterial here) -/
+def tornPieces (k : Nat) : List Bytes := if k == 0 then [] else [List.replicate k 0]
+
+/-- the reply body as the transport hands it to the modifiers when the origin stops after `k` payload
+    bytes: an error, except that a FIN is the regular end of a close-delimited body -/
+def originBody (ex : Exchange) (k : Nat) (reset : Bool) : BodyStream :=
+  { pieces := tornPieces k, ending := if ex.framing == .eof && !reset then .clean else .err }
+
+/-- `writeResponse` with a body that ends regularly after `n` bytes -/
+def replayedObs (ex : Exchange) (n : Nat) : ClientObs :=
+  match ex.framing with
+  | .cl m =>
+    -- `http.Response.Write` checks the length it declared
+    if n == m then .complete ex.id (.cl m) m (!ex.reqClose) else .prefixThenClose ex.id (.cl m) n false .fin
+  | .chunked =>
+    if ex.clientMinor == 0 then .complete ex.id .eof n false else .complete ex.id .chunked n (!ex.reqClose)
+  | .eof => .complete ex.id .eof n false
+
+def loggedBodyCutWith (snap : Snapshot) (m : LogMode) (ex : Exchange) (k : Nat) (reset : Bool) (lost : Nat) : ClientObs :=
+  let b := wrapBodyWith snap m (originBody ex k reset)
+  match b.ending with
+  | .err => bodyCutObs ex k reset (k - (b.bytes.length - lost))   -- `b.bytes.length - lost` bytes are delivered
+  | .clean => replayedObs ex b.bytes.length
+
+/-- `clientStream` with the logger in mode `m` in the response path -/
+def clientStreamLoggedWith (snap : Snapshot) (m : LogMode) (f : Fault) (ex : Exchange) : ClientObs :=
+  match f with
+  | .bodyCut k reset lost => if ex.kind == .connect then okObs ex else loggedBodyCutWith snap m ex k reset lost
+  | _ => clientStream f ex
+
+/-- the code as it is -/
+def clientStreamLogged (m : LogMode) (f : Fault) (ex : Exchange) : ClientObs :=
+  clientStreamLoggedWith snapshotKeepErr m f ex
+
+/-- what the logger makes of a fault: in mode `body` every byte of a torn body stays in the log's read -/
+def loggedFault : LogMode → Fault → Fault
+  | .body, .bodyCut k reset _ => .bodyCut k reset k
+  | _, f => f
+
+/-- the handler variant: the same modifier stack in front of `proxyHandler.writeResponse` -/
+def handlerStreamLogged (m : LogMode) (f : Fault) (ex : Exchange) : ClientObs := handlerStream (loggedFault m f) ex
 
 end C12
 end FwdVerif
